@@ -436,9 +436,13 @@ def _run_weight(acc, case):
         t, lv, off = meta[r]
         return f'single-element channel; value = {t} level {lv:g} x step {step!r}, offset {off:+d} ulp of the max-{M!r} sweep'
 
+    # histories of the quantizer INSTANCE before the evaluated call: fresh; after having observed a tensor with a 4x smaller / larger
+    # range in train or eval mode (the same module is applied again and again while the weights move); after its bit-width was changed
+    # through the public `precision` setter.  The clauses are about the call at hand, whatever the instance saw before.
+    HISTS = ['fresh', 'seen-smaller/train', 'seen-smaller/eval', 'seen-larger/eval', 'precision-set']
     for train in (False, True):
-        for shp in ('2d', '4d', 'single'):
-            variant = f'{"train" if train else "eval"}/{shp}'
+        for shp, hist in [(sh, 'fresh') for sh in ('2d', '4d', 'single')] + [('2d', h) for h in HISTS[1:]]:
+            variant = f'{"train" if train else "eval"}/{shp}' + ('' if hist == 'fresh' else '/' + hist)
             if not acc.want_variant(variant):
                 continue
             if shp == 'single':
@@ -450,8 +454,17 @@ def _run_weight(acc, case):
             outs = []
             for dq in (False, True):
                 xin = Xin.clone().view(shape)
-                y, q = _run_module(MinMaxWeight, dict(precision=p, cout=cout, symmetric=True, dequantize=dq), train,
-                                   lambda q: q(xin))
+
+                def call(q, xin=xin):
+                    if hist.startswith('seen-'):
+                        q.train(hist.endswith('/train'))
+                        q(xin * (0.25 if 'smaller' in hist else 4.0))
+                        q.train(train)
+                    elif hist == 'precision-set':
+                        q.precision = p
+                    return q(xin)
+                p0 = p if hist != 'precision-set' else (8 if p != 8 else 4)
+                y, q = _run_module(MinMaxWeight, dict(precision=p0, cout=cout, symmetric=True, dequantize=dq), train, call)
                 s = q.scale.detach().clone()
                 outs.append((y.reshape(Xin.shape) if y.numel() == Xin.numel() else y, s))
             _check_weight(acc, p, Mc, variant, chans, Xin, vmask, outs[0][0], outs[1][0], outs[0][1], outs[1][1], lvf)
@@ -568,13 +581,21 @@ def _run_act(acc, case):
             acc.nontrivial.add(f'a/p{p}/clip{clipc!r}/{t}/{math.floor(lv)}')
     sel = [i for i, m in enumerate(meta) if m[0] in ('clip', 'zero') or (m[0] == 'bnd' and m[1] in (1.0, float(2 ** p - 1)))]
     for train in (False, True):
-        for shp in ('1d', '4d', 'single'):
-            variant = f'{"train" if train else "eval"}/{shp}'
+        for shp, hist in [('1d', 'fresh'), ('4d', 'fresh'), ('single', 'fresh'), ('1d', 'precision-set'), ('1d', 'used-before')]:
+            variant = f'{"train" if train else "eval"}/{shp}' + ('' if hist == 'fresh' else '/' + hist)
             if not acc.want_variant(variant):
                 continue
             outs = []
             for dq in (False, True):
-                q = PACTAct(precision=p, init_clip_val=clipc, dequantize=dq)
+                if hist == 'precision-set':
+                    # an existing quantizer whose bit-width is changed through the public `precision` setter
+                    q = PACTAct(precision=(8 if p != 8 else 4), init_clip_val=clipc, dequantize=dq)
+                    q.precision = p
+                else:
+                    q = PACTAct(precision=p, init_clip_val=clipc, dequantize=dq)
+                if hist == 'used-before':
+                    q.train(not train)
+                    q(x.clone() * 0.5)
                 q.train(train)
                 if shp == '1d':
                     y = q(x.clone()).detach().clone()
